@@ -1,32 +1,35 @@
 (* C09 — read -> convert -> write yields a valid target file with the source's timeline.
-   Property theorems only: each is closed by [exact] from Proofs/PipelineProofs.v (table obligations and concrete
-   witnesses by vm_compute).
+   Property theorems only: each is closed by [exact] from Proofs/PipelineProofs.v / Proofs/PipelineCompose.v (table
+   obligations and concrete witnesses by vm_compute).
 
    What is proved for ALL inputs:
      * the comparison [timeline_close] is reflexive, symmetric, composes (triangle: resolutions add up), is monotone,
        invariant under row order and compatible with the converters' column shift; the boolean comparison the runner
        evaluates on the implementation's files soundly implies it; the resolution of a pair is the coarser of the two;
-     * every adapter maps "same denotation" to "same timeline" (Quaver: den_close / den_eq of C06; O2Jam: map_matches /
-       map_equiv of C07; osu, StepMania, BMS: equality up to row order);
-     * END TO END for O2Jam -> Quaver (C09_o2j_to_qua_pipeline): the three ingredients are proved in C07, C08, C06 and the
-       composition - including the step "the reader's output is inside the writer's domain" - is proved here;
-     * the proved HALVES for every other pair that involves Quaver or O2Jam, and the generic composition lemma.
-   What is NOT proved (the _partial statement says exactly what is missing): the end-to-end statement for the other
-   15 pairs.  Per pair the missing ingredient is a whole-file theorem of another property that is itself partial today:
-       osu reader / writer      C01: line-level reader = osu_denote and written-line lemmas are proved, the lifting to
-                                whole files is not (C01 "whole-file round-trip theorems are partial")
-       StepMania reader/writer  C02_sm_read_denotes_partial, C03_sm_write_denotes_partial
-       BMS reader / writer      C04 bms_read_denotes, C05 bms_write_denotes (open)
-     and, for every pair but O2Jam -> Quaver, the bridge between the two games' chart records and the frame on which C08's
-     cast theorem is stated (built here for O2Jam -> Quaver only).
-       osu->qua: reader | osu->sm: reader, writer | osu->bms: reader, writer | qua->osu: writer | qua->sm: writer |
-       qua->bms: writer | sm->osu: reader, writer | sm->qua: reader | sm->bms: reader, writer | bms->osu: reader, writer |
-       bms->qua: reader | bms->sm: reader, writer | o2j->osu: writer | o2j->sm: writer | o2j->bms: writer.
-   For those pairs the statement is decided on every run on the implementation's files by the reference interpreters
-   (Corr/RunC09.v); the check found them FALSE of the pinned tree in ten ways, six of which are repaired in /repo: see the
-   OLD / current witnesses below and docs/C09.md. *)
+     * every adapter maps "same denotation" to "same timeline";
+     * END TO END, for each of the 16 pairs, C09_<a>_to_<b>_pipeline: source FILE in the decidable domain of the reader's
+       whole-file theorem (C01 / C06 / C02 / C04 / C07) -> reader MODEL -> EVERY frame-level chart carrying the rows read
+       (hits, long notes, tempo points; any other columns, labels, lists, metadata) inside the converter's decidable domain
+       chart_wfb -> the GENERATED converter description d (In (n, d) Tables.convert.converters, translated from the converters'
+       source on every run; conv_okb d by C08_all_shipped_converters_ok; C09_pair_converters_shipped: the 16 names exist with
+       the right games) -> the chart of the target game with the converted rows and ANY other attributes for which it lies
+       in the writer's decidable domain -> writer MODEL (C06 / C01 six-decimal printer / C03 / C05) -> a well-formed file
+       whose timeline (reference semantics of the target format) is within the stated bound of the source file's timeline
+       (reference semantics of the source format), columns moved by the converter's own shift argument:
+           -> Quaver: 1 ms, bpm exact      -> osu!: 1 ms, bpm within 2e-9 (1 + B)
+           -> StepMania: exact inside c03_domb (the exact domain of C03)   -> BMS: exact on the snap grid inside write_dom.
+       Inclusion "converted chart is in the writer's domain" is PROVED for Quaver targets (typed metadata, columns >= 0;
+       for O2Jam sources also the columns) and is an explicit decidable hypothesis for osu! / StepMania / BMS targets.
+   PARTIAL (named _partial, the missing lemma stated at the theorem):
+     * StepMania / BMS SOURCES: the reader theorems of C02 / C04 do not determine the chart's tempo list (it is reseat's):
+       hypothesis sm_tempo_same / bms_tempo_same - this is exactly where the known finding tempo-reseated lives;
+     * BMS TARGETS: composed for the exact regime (bms_on_grid) only; C05's off-grid bound time_rt is not translated;
+   NOT composed for any pair: the metadata path (C08's subject) - the written chart has the converted ROWS and arbitrary
+   other attributes.  The runner (Corr/RunC09.v) decides the property on the implementation's files for every case. *)
 From Coq Require Import ZArith QArith Qround Qabs List Bool Permutation.
-From RV Require Import Base.PyNum Formats.Timeline Generated.Tables Proofs.PipelineProofs.
+From Coq Require Import String.
+From RV Require Import Base.PyNum Formats.Timeline Generated.Tables Proofs.PipelineProofs Proofs.PipelineCompose.
+From RV Require Import Convert.Converters.
 From RV Require Formats.Osu Formats.OsuSpec Formats.Qua Formats.QuaSpec Formats.SM Formats.SMSpec Formats.BMSSpec
   Formats.O2J Formats.O2JSpec Corr.RunC09.
 Import ListNotations.
@@ -106,7 +109,7 @@ Proof. exact tl_of_bms_perm. Qed.
    metadata wiring is checked per run by C08); the table obligation C09_ojn_layout_is_reference. *)
 Theorem C09_o2j_to_qua_pipeline : forall f trail meta, O2JSpec.wf_file f = true -> QuaSpec.meta_okb false meta = true ->
   exists o d, O2J.read_fixed (O2JSpec.encode_file f ++ trail) = Some o /\ O2JSpec.ojn_denote f = Some d
-    /\ length (O2J.os_maps o) = length (O2J.os_maps d)
+    /\ List.length (O2J.os_maps o) = List.length (O2J.os_maps d)
     /\ forall k mo md, nth_error (O2J.os_maps o) k = Some mo -> nth_error (O2J.os_maps d) k = Some md ->
        exists c doc e, o2j_to_qua meta mo = Some c /\ Qua.Live.write c = Some doc
          /\ QuaSpec.wf_qua_docb doc = true /\ QuaSpec.qua_denote doc = Some e /\ QuaSpec.all_declared (QuaSpec.d_meta e) = true
@@ -121,31 +124,512 @@ Theorem C09_converted_chart_in_writer_domain : forall meta m,
   QuaSpec.meta_okb false meta = true -> QuaSpec.wf_chartb false (q_chart meta m) = true.
 Proof. exact q_chart_wf. Qed.
 
-(* ================= the other pairs: what is proved of them =================
-   FULL STATEMENT (not proved; see the header for the missing ingredient per pair):
-     forall (A, B) of the 16 pairs, every source file f in A's domain with a timeline B can hold (RunC09.conv_ok):
-       exists target, model_write_B (model_convert_AB (model_read_A f)) = Some target /\ wf_B target
-                      /\ timeline_close_by (res_pair A B ..) eps (timeline_of_B (denote_B target)) (shift (timeline_of_A (denote_A f))).
-   Proved: the generic composition (any reader / converter / writer that meet their own bounds compose to the sum), and
-   the reader / writer halves for Quaver and O2Jam in the form that composition consumes. *)
-Theorem C09_pipeline_compose_partial : forall r1 e1 r2 e2 s src chart_a chart_b tgt,
+(* ================= the building blocks of the per-pair theorems ================= *)
+Theorem C09_pipeline_compose : forall r1 e1 r2 e2 s src chart_a chart_b tgt,
   timeline_close r1 e1 chart_a src -> timeline_close 0 0 chart_b (tl_shift s chart_a) -> timeline_close r2 e2 tgt chart_b ->
   timeline_close (r1 + r2) (e1 + e2) tgt (tl_shift s src).
 Proof. exact pipeline_compose. Qed.
-Theorem C09_quaver_reader_half_partial : forall doc, QuaSpec.wf_docb doc = true ->
+Theorem C09_quaver_reader_half : forall doc, QuaSpec.wf_docb doc = true ->
   exists c e a, Qua.Live.read doc = Some c /\ QuaSpec.qua_denote doc = Some e /\ QuaSpec.chart_denote c = Some a
                 /\ timeline_close 0 0 (tl_of_qua a) (tl_of_qua e).
 Proof. exact qua_reader_half. Qed.
-Theorem C09_quaver_writer_half_partial : forall c, QuaSpec.wf_chartb false c = true ->
+Theorem C09_quaver_writer_half : forall c, QuaSpec.wf_chartb false c = true ->
   exists doc e a, Qua.Live.write c = Some doc /\ QuaSpec.wf_qua_docb doc = true /\ QuaSpec.qua_denote doc = Some e
                   /\ QuaSpec.chart_denote c = Some a /\ timeline_close 1 0 (tl_of_qua e) (tl_of_qua a).
 Proof. exact qua_writer_half. Qed.
-Theorem C09_o2jam_reader_half_partial : forall f trail, O2JSpec.wf_file f = true ->
+Theorem C09_o2jam_reader_half : forall f trail, O2JSpec.wf_file f = true ->
   exists o d, O2J.read_fixed (O2JSpec.encode_file f ++ trail) = Some o /\ O2JSpec.ojn_denote f = Some d
     /\ forall k mo md, nth_error (O2J.os_maps o) k = Some mo -> nth_error (O2J.os_maps d) k = Some md ->
         timeline_close 0 0 (tl_of_omap mo) (tl_of_omap md)
         /\ Forall (fun n => (0 <= tn_col n < 7)%Z) (tl_notes (tl_of_omap md)).
 Proof. exact (o2j_reader_half C09_ojn_layout_is_reference). Qed.
+
+(* the converter step shared by all pairs: C08_converter_preserves read on the rows *)
+Theorem C09_converter_carries_rows : forall d a sm k cs oracle sz rA tsrc rq eq_,
+  conv_okb d = true -> chart_wfb d a sm k cs oracle = true -> a_shift a = inject_Z sz ->
+  rows_of_cchart cs = Some rA -> timeline_close rq eq_ (tl_of_rows rA) tsrc ->
+  exists out, conv_chart d a sm k cs oracle = Some out
+    /\ rows_of_cchart out = Some (shift_rows (conv_shift d sz) rA)
+    /\ timeline_close rq eq_ (tl_of_rows (shift_rows (conv_shift d sz) rA)) (tl_shift (conv_shift d sz) tsrc).
+Proof. exact convert_step. Qed.
+(* re-checked against the code on every run: the 16 converters exist, between the games they are named after *)
+Theorem C09_pair_converters_shipped :
+  forallb (fun t => match conv_named (fst (fst t)) with
+                    | Some d => (cd_src_game d =? snd (fst t))%Z && (cd_tgt_game d =? snd t)%Z | None => false end) pair_table = true.
+Proof. exact pair_converters_shipped. Qed.
+Theorem C09_named_converter_is_shipped : forall name d, conv_named name = Some d -> exists n, In (n, d) Tables.convert.converters.
+Proof. exact conv_named_in. Qed.
+
+(* ================= END TO END, the 16 pairs (see the header for the common shape) ================= *)
+(* osu! -> Quaver.  Reader C01_osu_read_denotes (wf_read_text /\ strict_read_text), writer C06 (inclusion in the writer's domain
+   PROVED from typed metadata and columns >= 0; the latter is kept as the decidable hypothesis cols_nonneg).  1 ms, bpm exact. *)
+Theorem C09_osu_to_qua_pipeline :
+  forall (n : Z) (d : conv_desc) (lines : list Text.text) (a : cargs) (sm : meta) (k : nat) 
+         (oracle : chart) (sz : Z) (meta : list Qua.ytree),
+       In (n, d) converters ->
+       OsuSpec.wf_read_text lines = true ->
+       OsuSpec.strict_read_text lines = true ->
+       a_shift a = inject_Z sz ->
+       QuaSpec.meta_okb false meta = true ->
+       exists (dsrc : OsuSpec.dchart) (c : Osu.chart),
+         OsuSpec.osu_denote lines = Some dsrc /\
+         Osu.osu_read lines = Some c /\
+         (forall cs : chart,
+          rows_of_cchart cs = Some (rows_of_osu c) ->
+          chart_wfb d a sm k cs oracle = true ->
+          exists (out : chart) (r' : rows),
+            conv_chart d a sm k cs oracle = Some out /\
+            rows_of_cchart out = Some r' /\
+            (cols_nonneg r' = true ->
+             QuaSpec.wf_chartb false (build_qua r' meta) = true /\
+             (exists (doc : Qua.ytree) (e : QuaSpec.den),
+                Qua.Live.write (build_qua r' meta) = Some doc /\
+                QuaSpec.wf_qua_docb doc = true /\
+                QuaSpec.qua_denote doc = Some e /\
+                timeline_close 1 0 (tl_of_qua e) (tl_shift (conv_shift d sz) (tl_of_osu dsrc))))).
+Proof. exact osu_to_qua_pipeline. Qed.
+
+(* Quaver -> osu!.  Reader C06 (wf_docb), writer C01 with the six-decimal printer (wdom6: decidable hypothesis on the built chart).
+   1 ms; bpm within OSU_BPM_EPS B = 2e-9 * (1 + B) for a bound B on the tempo values (six-decimal beatLength). *)
+Theorem C09_qua_to_osu_pipeline :
+  forall (n : Z) (d : conv_desc) (doc : Qua.ytree) (a : cargs) (sm : meta) (k : nat) 
+         (oracle : chart) (sz : Z) (p : osu_rest) (ut ua : Text.text) (B : Q),
+       In (n, d) converters ->
+       QuaSpec.wf_docb doc = true ->
+       a_shift a = inject_Z sz ->
+       exists (c : Qua.chart) (e : QuaSpec.den) (rA : rows),
+         Qua.Live.read doc = Some c /\
+         QuaSpec.qua_denote doc = Some e /\
+         rows_of_qua c = Some rA /\
+         (forall cs : chart,
+          rows_of_cchart cs = Some rA ->
+          chart_wfb d a sm k cs oracle = true ->
+          exists (out : chart) (r' : rows),
+            conv_chart d a sm k cs oracle = Some out /\
+            rows_of_cchart out = Some r' /\
+            (OsuWhole.wdom6 (build_osu r' p) ut ua = true ->
+             (forall b : Q * Q, In b (r_bpms r') -> Qabs (snd b) <= B) ->
+             exists (text : list Text.text) (dt : OsuSpec.dchart),
+               OsuWhole.written6 (build_osu r' p) ut ua = Some text /\
+               OsuSpec.wf_osu_text text = true /\
+               OsuSpec.osu_denote text = Some dt /\
+               timeline_close 1 (OSU_BPM_EPS B) (tl_of_osu dt) (tl_shift (conv_shift d sz) (tl_of_qua e)))).
+Proof. exact qua_to_osu_pipeline. Qed.
+
+(* O2Jam -> osu!, per difficulty.  Reader C07 (wf_file, byte level), writer C01 (wdom6 hypothesis). *)
+Theorem C09_o2j_to_osu_pipeline :
+  forall (n : Z) (d : conv_desc) (f : O2JSpec.ofile) (trail : list Z) (a : cargs) (sm : meta) 
+         (oracle : chart) (sz : Z) (p : osu_rest) (ut ua : Text.text) (B : Q),
+       Tables.c07.layout = O2JSpec.ref_layout ->
+       In (n, d) converters ->
+       O2JSpec.wf_file f = true ->
+       a_shift a = inject_Z sz ->
+       exists o dn : O2J.oset,
+         O2J.read_fixed (O2JSpec.encode_file f ++ trail) = Some o /\
+         O2JSpec.ojn_denote f = Some dn /\
+         (forall (k : nat) (mo md : O2J.omap),
+          nth_error (O2J.os_maps o) k = Some mo ->
+          nth_error (O2J.os_maps dn) k = Some md ->
+          forall cs : chart,
+          rows_of_cchart cs = Some (rows_of_omap mo) ->
+          chart_wfb d a sm k cs oracle = true ->
+          exists (out : chart) (r' : rows),
+            conv_chart d a sm k cs oracle = Some out /\
+            rows_of_cchart out = Some r' /\
+            (OsuWhole.wdom6 (build_osu r' p) ut ua = true ->
+             (forall b : Q * Q, In b (r_bpms r') -> Qabs (snd b) <= B) ->
+             exists (text : list Text.text) (dt : OsuSpec.dchart),
+               OsuWhole.written6 (build_osu r' p) ut ua = Some text /\
+               OsuSpec.wf_osu_text text = true /\
+               OsuSpec.osu_denote text = Some dt /\
+               timeline_close 1 (OSU_BPM_EPS B) (tl_of_osu dt) (tl_shift (conv_shift d sz) (tl_of_omap md)))).
+Proof. exact o2j_to_osu_pipeline. Qed.
+
+(* O2Jam -> Quaver THROUGH THE CONVERTER DESCRIPTION, per difficulty; inclusion in the writer's domain proved (lanes 0..6, shift >= 0). *)
+Theorem C09_o2j_to_qua_conv_pipeline :
+  forall (n : Z) (d : conv_desc) (f : O2JSpec.ofile) (trail : list Z) (a : cargs) (sm : meta) 
+         (oracle : chart) (sz : Z) (meta : list Qua.ytree),
+       Tables.c07.layout = O2JSpec.ref_layout ->
+       In (n, d) converters ->
+       O2JSpec.wf_file f = true ->
+       a_shift a = inject_Z sz ->
+       (0 <= conv_shift d sz)%Z ->
+       QuaSpec.meta_okb false meta = true ->
+       exists o dn : O2J.oset,
+         O2J.read_fixed (O2JSpec.encode_file f ++ trail) = Some o /\
+         O2JSpec.ojn_denote f = Some dn /\
+         (forall (k : nat) (mo md : O2J.omap),
+          nth_error (O2J.os_maps o) k = Some mo ->
+          nth_error (O2J.os_maps dn) k = Some md ->
+          forall cs : chart,
+          rows_of_cchart cs = Some (rows_of_omap mo) ->
+          chart_wfb d a sm k cs oracle = true ->
+          exists (out : chart) (r' : rows),
+            conv_chart d a sm k cs oracle = Some out /\
+            rows_of_cchart out = Some r' /\
+            QuaSpec.wf_chartb false (build_qua r' meta) = true /\
+            (exists (doc : Qua.ytree) (e : QuaSpec.den),
+               Qua.Live.write (build_qua r' meta) = Some doc /\
+               QuaSpec.wf_qua_docb doc = true /\
+               QuaSpec.qua_denote doc = Some e /\
+               timeline_close 1 0 (tl_of_qua e) (tl_shift (conv_shift d sz) (tl_of_omap md)))).
+Proof. exact o2j_to_qua_conv_pipeline. Qed.
+
+(* osu! -> StepMania: EXACT (0 ms) inside the exact domain c03_domb of the converted chart (decidable hypothesis; distinct_offs is
+   implied by it but kept explicit).  Every rendering txt of the written tokens. *)
+Theorem C09_osu_to_sm_pipeline :
+  forall (n : Z) (d : conv_desc) (lines : list Text.text) (a : cargs) (sm : meta) (k : nat) 
+         (oracle : chart) (sz : Z) (p : sm_rest),
+       In (n, d) converters ->
+       OsuSpec.wf_read_text lines = true ->
+       OsuSpec.strict_read_text lines = true ->
+       a_shift a = inject_Z sz ->
+       exists (dsrc : OsuSpec.dchart) (c : Osu.chart),
+         OsuSpec.osu_denote lines = Some dsrc /\
+         Osu.osu_read lines = Some c /\
+         (forall cs : chart,
+          rows_of_cchart cs = Some (rows_of_osu c) ->
+          chart_wfb d a sm k cs oracle = true ->
+          exists (out : chart) (r' : rows),
+            conv_chart d a sm k cs oracle = Some out /\
+            rows_of_cchart out = Some r' /\
+            (SMWriteWholeFile.c03_domb (build_sm r' p) = true ->
+             distinct_offs (r_bpms r') ->
+             exists toks : list SM.tok,
+               SM.sm_write SMProofs.live_conf SM.current (build_sm r' p) = Some toks /\
+               (forall txt : SMText.text,
+                SM.match_toks 0 toks txt = true ->
+                exists (dt : SMSpec.dfile) (dc : SMSpec.dchart),
+                  SMSpec.sm_denote txt = Some dt /\
+                  SMSpec.d_charts dt = [dc] /\
+                  timeline_close 0 0 (tl_of_sm_chart dt dc) (tl_shift (conv_shift d sz) (tl_of_osu dsrc))))).
+Proof. exact osu_to_sm_pipeline. Qed.
+
+(* Quaver -> StepMania (as above). *)
+Theorem C09_qua_to_sm_pipeline :
+  forall (n : Z) (d : conv_desc) (doc : Qua.ytree) (a : cargs) (sm : meta) (k : nat) 
+         (oracle : chart) (sz : Z) (p : sm_rest),
+       In (n, d) converters ->
+       QuaSpec.wf_docb doc = true ->
+       a_shift a = inject_Z sz ->
+       exists (c : Qua.chart) (e : QuaSpec.den) (rA : rows),
+         Qua.Live.read doc = Some c /\
+         QuaSpec.qua_denote doc = Some e /\
+         rows_of_qua c = Some rA /\
+         (forall cs : chart,
+          rows_of_cchart cs = Some rA ->
+          chart_wfb d a sm k cs oracle = true ->
+          exists (out : chart) (r' : rows),
+            conv_chart d a sm k cs oracle = Some out /\
+            rows_of_cchart out = Some r' /\
+            (SMWriteWholeFile.c03_domb (build_sm r' p) = true ->
+             distinct_offs (r_bpms r') ->
+             exists toks : list SM.tok,
+               SM.sm_write SMProofs.live_conf SM.current (build_sm r' p) = Some toks /\
+               (forall txt : SMText.text,
+                SM.match_toks 0 toks txt = true ->
+                exists (dt : SMSpec.dfile) (dc : SMSpec.dchart),
+                  SMSpec.sm_denote txt = Some dt /\
+                  SMSpec.d_charts dt = [dc] /\
+                  timeline_close 0 0 (tl_of_sm_chart dt dc) (tl_shift (conv_shift d sz) (tl_of_qua e))))).
+Proof. exact qua_to_sm_pipeline. Qed.
+
+(* O2Jam -> StepMania, per difficulty (as above). *)
+Theorem C09_o2j_to_sm_pipeline :
+  forall (n : Z) (d : conv_desc) (f : O2JSpec.ofile) (trail : list Z) (a : cargs) (sm : meta) 
+         (oracle : chart) (sz : Z) (p : sm_rest),
+       Tables.c07.layout = O2JSpec.ref_layout ->
+       In (n, d) converters ->
+       O2JSpec.wf_file f = true ->
+       a_shift a = inject_Z sz ->
+       exists o dn : O2J.oset,
+         O2J.read_fixed (O2JSpec.encode_file f ++ trail) = Some o /\
+         O2JSpec.ojn_denote f = Some dn /\
+         (forall (k : nat) (mo md : O2J.omap),
+          nth_error (O2J.os_maps o) k = Some mo ->
+          nth_error (O2J.os_maps dn) k = Some md ->
+          forall cs : chart,
+          rows_of_cchart cs = Some (rows_of_omap mo) ->
+          chart_wfb d a sm k cs oracle = true ->
+          exists (out : chart) (r' : rows),
+            conv_chart d a sm k cs oracle = Some out /\
+            rows_of_cchart out = Some r' /\
+            (SMWriteWholeFile.c03_domb (build_sm r' p) = true ->
+             distinct_offs (r_bpms r') ->
+             exists toks : list SM.tok,
+               SM.sm_write SMProofs.live_conf SM.current (build_sm r' p) = Some toks /\
+               (forall txt : SMText.text,
+                SM.match_toks 0 toks txt = true ->
+                exists (dt : SMSpec.dfile) (dc : SMSpec.dchart),
+                  SMSpec.sm_denote txt = Some dt /\
+                  SMSpec.d_charts dt = [dc] /\
+                  timeline_close 0 0 (tl_of_sm_chart dt dc) (tl_shift (conv_shift d sz) (tl_of_omap md))))).
+Proof. exact o2j_to_sm_pipeline. Qed.
+
+(* StepMania -> osu!, per chart.  PARTIAL in one respect: C02_sm_read_denotes says of the chart's tempo LIST only that every tempo
+   change of the file is in it (it is TimingMap.reseat()'s list); missing lemma: 'when every tempo change lies on a measure line the
+   list is exactly the file's tempo changes'.  Hence the decidable hypothesis sm_tempo_same ds c (false exactly on the known
+   finding tempo-reseated). *)
+Theorem C09_sm_to_osu_pipeline_partial :
+  forall (n : Z) (d : conv_desc) (txt : SMText.text) (a : cargs) (oracle : chart) (sz : Z) 
+         (p : osu_rest) (ut ua : Text.text) (B : Q),
+       In (n, d) converters ->
+       SMReadDom.c02_domb txt = true ->
+       a_shift a = inject_Z sz ->
+       exists (ds : SMSpec.dfile) (s : SM.smset),
+         SMSpec.sm_denote txt = Some ds /\
+         SM.sm_read SMProofs.live_conf SM.current txt = Some s /\
+         (forall (k : nat) (dc : SMSpec.dchart) (c : SM.smchart),
+          nth_error (SMSpec.d_charts ds) k = Some dc ->
+          nth_error (SM.s_maps s) k = Some c ->
+          sm_tempo_same ds c = true ->
+          forall (sm : meta) (cs : chart),
+          rows_of_cchart cs = Some (rows_of_smchart c) ->
+          chart_wfb d a sm k cs oracle = true ->
+          exists (out : chart) (r' : rows),
+            conv_chart d a sm k cs oracle = Some out /\
+            rows_of_cchart out = Some r' /\
+            (OsuWhole.wdom6 (build_osu r' p) ut ua = true ->
+             (forall b : Q * Q, In b (r_bpms r') -> Qabs (snd b) <= B) ->
+             exists (text : list Text.text) (dt : OsuSpec.dchart),
+               OsuWhole.written6 (build_osu r' p) ut ua = Some text /\
+               OsuSpec.wf_osu_text text = true /\
+               OsuSpec.osu_denote text = Some dt /\
+               timeline_close 1 (OSU_BPM_EPS B) (tl_of_osu dt) (tl_shift (conv_shift d sz) (tl_of_sm_chart ds dc)))).
+Proof. exact sm_to_osu_pipeline. Qed.
+
+(* StepMania -> Quaver, per chart (same partiality). *)
+Theorem C09_sm_to_qua_pipeline_partial :
+  forall (n : Z) (d : conv_desc) (txt : SMText.text) (a : cargs) (oracle : chart) (sz : Z)
+         (meta0 : list Qua.ytree),
+       In (n, d) converters ->
+       SMReadDom.c02_domb txt = true ->
+       a_shift a = inject_Z sz ->
+       QuaSpec.meta_okb false meta0 = true ->
+       exists (ds : SMSpec.dfile) (s : SM.smset),
+         SMSpec.sm_denote txt = Some ds /\
+         SM.sm_read SMProofs.live_conf SM.current txt = Some s /\
+         (forall (k : nat) (dc : SMSpec.dchart) (c : SM.smchart),
+          nth_error (SMSpec.d_charts ds) k = Some dc ->
+          nth_error (SM.s_maps s) k = Some c ->
+          sm_tempo_same ds c = true ->
+          forall (sm : meta) (cs : chart),
+          rows_of_cchart cs = Some (rows_of_smchart c) ->
+          chart_wfb d a sm k cs oracle = true ->
+          exists (out : chart) (r' : rows),
+            conv_chart d a sm k cs oracle = Some out /\
+            rows_of_cchart out = Some r' /\
+            (cols_nonneg r' = true ->
+             QuaSpec.wf_chartb false (build_qua r' meta0) = true /\
+             (exists (doc : Qua.ytree) (e : QuaSpec.den),
+                Qua.Live.write (build_qua r' meta0) = Some doc /\
+                QuaSpec.wf_qua_docb doc = true /\
+                QuaSpec.qua_denote doc = Some e /\
+                timeline_close 1 0 (tl_of_qua e) (tl_shift (conv_shift d sz) (tl_of_sm_chart ds dc))))).
+Proof. exact sm_to_qua_pipeline. Qed.
+
+(* BMS -> osu!.  Reader C04_bms_read_text (layout_ok, wf_bms_lines, read_guards, and the read returned: C04_bms_read_returns says when).
+   PARTIAL like StepMania: C04 says nothing of the tempo list (reseat); hypothesis bms_tempo_same ds c. *)
+Theorem C09_bms_to_osu_pipeline_partial :
+  forall (n : Z) (d : conv_desc) (lay : BMSSpec.slayout) (mk : Z) (lines : list (list Z)) 
+         (c : BMS.bms_chart) (a : cargs) (sm : meta) (k : nat) (oracle : chart) (sz : Z),
+       In (n, d) converters ->
+       BMSSpec.layout_ok mk lay = true ->
+       BMSSpec.wf_bms_lines lay lines = true ->
+       BMSSpec.read_guards C04.tbl lines = true ->
+       BMS.bms_read C04.tbl lay mk lines = Some c ->
+       a_shift a = inject_Z sz ->
+       forall (p : osu_rest) (ut ua : Text.text) (B : Q),
+       exists ds : BMSSpec.denotation,
+         BMSSpec.bms_denote lay lines = Some ds /\
+         (bms_tempo_same ds c = true ->
+          forall cs : chart,
+          rows_of_cchart cs = Some (rows_of_bms c) ->
+          chart_wfb d a sm k cs oracle = true ->
+          exists (out : chart) (r' : rows),
+            conv_chart d a sm k cs oracle = Some out /\
+            rows_of_cchart out = Some r' /\
+            (OsuWhole.wdom6 (build_osu r' p) ut ua = true ->
+             (forall b : Q * Q, In b (r_bpms r') -> Qabs (snd b) <= B) ->
+             exists (text : list Text.text) (dt : OsuSpec.dchart),
+               OsuWhole.written6 (build_osu r' p) ut ua = Some text /\
+               OsuSpec.wf_osu_text text = true /\
+               OsuSpec.osu_denote text = Some dt /\
+               timeline_close 1 (OSU_BPM_EPS B) (tl_of_osu dt) (tl_shift (conv_shift d sz) (tl_of_bms ds)))).
+Proof. exact bms_to_osu_pipeline. Qed.
+
+(* BMS -> Quaver (same partiality). *)
+Theorem C09_bms_to_qua_pipeline_partial :
+  forall (n : Z) (d : conv_desc) (lay : BMSSpec.slayout) (mk : Z) (lines : list (list Z)) 
+         (c : BMS.bms_chart) (a : cargs) (sm : meta) (k : nat) (oracle : chart) (sz : Z),
+       In (n, d) converters ->
+       BMSSpec.layout_ok mk lay = true ->
+       BMSSpec.wf_bms_lines lay lines = true ->
+       BMSSpec.read_guards C04.tbl lines = true ->
+       BMS.bms_read C04.tbl lay mk lines = Some c ->
+       a_shift a = inject_Z sz ->
+       forall qmeta : list Qua.ytree,
+       QuaSpec.meta_okb false qmeta = true ->
+       exists ds : BMSSpec.denotation,
+         BMSSpec.bms_denote lay lines = Some ds /\
+         (bms_tempo_same ds c = true ->
+          forall cs : chart,
+          rows_of_cchart cs = Some (rows_of_bms c) ->
+          chart_wfb d a sm k cs oracle = true ->
+          exists (out : chart) (r' : rows),
+            conv_chart d a sm k cs oracle = Some out /\
+            rows_of_cchart out = Some r' /\
+            (cols_nonneg r' = true ->
+             QuaSpec.wf_chartb false (build_qua r' qmeta) = true /\
+             (exists (doc : Qua.ytree) (e : QuaSpec.den),
+                Qua.Live.write (build_qua r' qmeta) = Some doc /\
+                QuaSpec.wf_qua_docb doc = true /\
+                QuaSpec.qua_denote doc = Some e /\
+                timeline_close 1 0 (tl_of_qua e) (tl_shift (conv_shift d sz) (tl_of_bms ds))))).
+Proof. exact bms_to_qua_pipeline. Qed.
+
+(* BMS -> StepMania (same partiality; writer exact inside c03_domb). *)
+Theorem C09_bms_to_sm_pipeline_partial :
+  forall (n : Z) (d : conv_desc) (lay : BMSSpec.slayout) (mk : Z) (lines : list (list Z)) 
+         (c : BMS.bms_chart) (a : cargs) (sm : meta) (k : nat) (oracle : chart) (sz : Z),
+       In (n, d) converters ->
+       BMSSpec.layout_ok mk lay = true ->
+       BMSSpec.wf_bms_lines lay lines = true ->
+       BMSSpec.read_guards C04.tbl lines = true ->
+       BMS.bms_read C04.tbl lay mk lines = Some c ->
+       a_shift a = inject_Z sz ->
+       forall p : sm_rest,
+       exists ds : BMSSpec.denotation,
+         BMSSpec.bms_denote lay lines = Some ds /\
+         (bms_tempo_same ds c = true ->
+          forall cs : chart,
+          rows_of_cchart cs = Some (rows_of_bms c) ->
+          chart_wfb d a sm k cs oracle = true ->
+          exists (out : chart) (r' : rows),
+            conv_chart d a sm k cs oracle = Some out /\
+            rows_of_cchart out = Some r' /\
+            (SMWriteWholeFile.c03_domb (build_sm r' p) = true ->
+             distinct_offs (r_bpms r') ->
+             exists toks : list SM.tok,
+               SM.sm_write SMProofs.live_conf SM.current (build_sm r' p) = Some toks /\
+               (forall txt : SMText.text,
+                SM.match_toks 0 toks txt = true ->
+                exists (dt : SMSpec.dfile) (dc : SMSpec.dchart),
+                  SMSpec.sm_denote txt = Some dt /\
+                  SMSpec.d_charts dt = [dc] /\
+                  timeline_close 0 0 (tl_of_sm_chart dt dc) (tl_shift (conv_shift d sz) (tl_of_bms ds))))).
+Proof. exact bms_to_sm_pipeline. Qed.
+
+(* osu! -> BMS.  Writer C05_bms_write_denotes inside write_dom; the timeline statement is composed for the EXACT regime only
+   (bms_on_grid: every start and end on the snap grid of its tempo change, where C05 gives equality); off the grid C05's bound
+   (1/192 beat of the tempo in force, time_rt) is not yet translated into timeline_close_by: missing lemma 'time_rt -> res_of FBms'. *)
+Theorem C09_osu_to_bms_pipeline_partial :
+  forall (n : Z) (d : conv_desc) (lines : list Text.text) (a : cargs) (sm : meta) (k : nat) 
+         (oracle : chart) (sz mk : Z) (lay : BMSSpec.slayout) (dflt : list Z) (p : bms_rest) 
+         (rd : Q -> list Z),
+       In (n, d) converters ->
+       OsuSpec.wf_read_text lines = true ->
+       OsuSpec.strict_read_text lines = true ->
+       a_shift a = inject_Z sz ->
+       exists (dsrc : OsuSpec.dchart) (c : Osu.chart),
+         OsuSpec.osu_denote lines = Some dsrc /\
+         Osu.osu_read lines = Some c /\
+         (forall cs : chart,
+          rows_of_cchart cs = Some (rows_of_osu c) ->
+          chart_wfb d a sm k cs oracle = true ->
+          exists (out : chart) (r' : rows),
+            conv_chart d a sm k cs oracle = Some out /\
+            rows_of_cchart out = Some r' /\
+            bms_target_concl mk lay dflt p rd r' (tl_shift (conv_shift d sz) (tl_of_osu dsrc))).
+Proof. exact osu_to_bms_pipeline. Qed.
+
+(* Quaver -> BMS (as above). *)
+Theorem C09_qua_to_bms_pipeline_partial :
+  forall (n : Z) (d : conv_desc) (doc : Qua.ytree) (a : cargs) (sm : meta) (k : nat) 
+         (oracle : chart) (sz mk : Z) (lay : BMSSpec.slayout) (dflt : list Z) (p : bms_rest) 
+         (rd : Q -> list Z),
+       In (n, d) converters ->
+       QuaSpec.wf_docb doc = true ->
+       a_shift a = inject_Z sz ->
+       exists (c : Qua.chart) (e : QuaSpec.den) (rA : rows),
+         Qua.Live.read doc = Some c /\
+         QuaSpec.qua_denote doc = Some e /\
+         rows_of_qua c = Some rA /\
+         (forall cs : chart,
+          rows_of_cchart cs = Some rA ->
+          chart_wfb d a sm k cs oracle = true ->
+          exists (out : chart) (r' : rows),
+            conv_chart d a sm k cs oracle = Some out /\
+            rows_of_cchart out = Some r' /\
+            bms_target_concl mk lay dflt p rd r' (tl_shift (conv_shift d sz) (tl_of_qua e))).
+Proof. exact qua_to_bms_pipeline. Qed.
+
+(* StepMania -> BMS, per chart (reader partiality sm_tempo_same + writer exact regime). *)
+Theorem C09_sm_to_bms_pipeline_partial :
+  forall (n : Z) (d : conv_desc) (txt : SMText.text) (a : cargs) (oracle : chart) (sz mk : Z)
+         (lay : BMSSpec.slayout) (dflt : list Z) (p : bms_rest) (rd : Q -> list Z),
+       In (n, d) converters ->
+       SMReadDom.c02_domb txt = true ->
+       a_shift a = inject_Z sz ->
+       exists (ds : SMSpec.dfile) (s : SM.smset),
+         SMSpec.sm_denote txt = Some ds /\
+         SM.sm_read SMProofs.live_conf SM.current txt = Some s /\
+         (forall (k : nat) (dc : SMSpec.dchart) (c : SM.smchart),
+          nth_error (SMSpec.d_charts ds) k = Some dc ->
+          nth_error (SM.s_maps s) k = Some c ->
+          sm_tempo_same ds c = true ->
+          forall (sm : meta) (cs : chart),
+          rows_of_cchart cs = Some (rows_of_smchart c) ->
+          chart_wfb d a sm k cs oracle = true ->
+          exists (out : chart) (r' : rows),
+            conv_chart d a sm k cs oracle = Some out /\
+            rows_of_cchart out = Some r' /\
+            bms_target_concl mk lay dflt p rd r' (tl_shift (conv_shift d sz) (tl_of_sm_chart ds dc))).
+Proof. exact sm_to_bms_pipeline. Qed.
+
+(* O2Jam -> BMS, per difficulty (writer exact regime). *)
+Theorem C09_o2j_to_bms_pipeline_partial :
+  forall (n : Z) (d : conv_desc) (f : O2JSpec.ofile) (trail : list Z) (a : cargs) (sm : meta) 
+         (oracle : chart) (sz mk : Z) (lay : BMSSpec.slayout) (dflt : list Z) (p : bms_rest) 
+         (rd : Q -> list Z),
+       Tables.c07.layout = O2JSpec.ref_layout ->
+       In (n, d) converters ->
+       O2JSpec.wf_file f = true ->
+       a_shift a = inject_Z sz ->
+       exists o dn : O2J.oset,
+         O2J.read_fixed (O2JSpec.encode_file f ++ trail) = Some o /\
+         O2JSpec.ojn_denote f = Some dn /\
+         (forall (k : nat) (mo md : O2J.omap),
+          nth_error (O2J.os_maps o) k = Some mo ->
+          nth_error (O2J.os_maps dn) k = Some md ->
+          forall cs : chart,
+          rows_of_cchart cs = Some (rows_of_omap mo) ->
+          chart_wfb d a sm k cs oracle = true ->
+          exists (out : chart) (r' : rows),
+            conv_chart d a sm k cs oracle = Some out /\
+            rows_of_cchart out = Some r' /\
+            bms_target_concl mk lay dflt p rd r' (tl_shift (conv_shift d sz) (tl_of_omap md))).
+Proof. exact o2j_to_bms_pipeline. Qed.
+
+(* ================= non-vacuity of the per-pair theorems =================
+   (a) for every one of the 16 shipped descriptions a frame-level chart carrying two hits, a long note and two tempo points
+       (built generically from the description: all declared columns, every attribute its expressions read) lies in the
+       converter's domain chart_wfb;  (b) C01's example text goes through reader model, OsuToQua description and Quaver
+       writer model to a well-formed document within 1 ms (computed);  (c) the charts built from those rows lie in the
+       writers' domains wdom6 (osu!), c03_domb (StepMania) and write_dom + on-grid (BMS, all five layouts). *)
+Example C09_converter_domains_nonvacuous :
+  forallb example_okb ["OsuToQua"; "QuaToOsu"; "O2JToOsu"; "O2JToQua"; "OsuToSM"; "QuaToSM"; "O2JToSM"; "SMToOsu"; "SMToQua";
+                       "BMSToOsu"; "BMSToQua"; "BMSToSM"; "OsuToBMS"; "QuaToBMS"; "SMToBMS"; "O2JToBMS"]%string = true.
+Proof. exact example_converter_domains. Qed.
+Example C09_osu_to_qua_computed : example_osu_qua = true.
+Proof. exact example_osu_qua_ok. Qed.
+Example C09_writer_domains_nonvacuous :
+  OsuWhole.wdom6 (build_osu example_rows example_osu_rest) [65]%Z [66]%Z = true
+  /\ (SMWriteWholeFile.c03_domb (build_sm example_rows example_sm_rest) = true /\ distinct_offs (r_bpms example_rows))
+  /\ forallb (fun lay => BMSSpec.write_dom C05.tbl Tables.bms.max_keys lay [48; 49]%Z (build_bms example_rows example_bms_rest)
+                         && match BMSSpec.wscript C05.tbl (build_bms example_rows example_bms_rest) with
+                            | Some l => bms_on_grid example_rows l | None => false end) Tables.bms.layouts = true.
+Proof. exact (conj example_osu_domain (conj example_sm_domain example_bms_domain)). Qed.
 
 (* ================= defects found, on real files: the OLD written file refuted, the current one accepted =================
    Each witness: a source file inside its format's domain and inside the composition's domain (wf_ok) with
@@ -198,8 +682,8 @@ Example C09_nonvacuous :
              | Some c => match Qua.Live.write c with
                          | Some doc => match QuaSpec.qua_denote doc with
                                        | Some e => QuaSpec.wf_qua_docb doc && timeline_closeb 1 0 (tl_of_qua e) (tl_of_omap md)
-                                                   && (length (tl_notes (tl_of_omap md)) =? 3)%nat
-                                                   && (length (tl_tempo (tl_of_omap md)) =? 2)%nat
+                                                   && (List.length (tl_notes (tl_of_omap md)) =? 3)%nat
+                                                   && (List.length (tl_tempo (tl_of_omap md)) =? 2)%nat
                                        | None => false end
                          | None => false end
              | None => false end
